@@ -97,6 +97,7 @@ func Body(state int) map[string]any {
 
 func Gen(t *rapid.T) Case {
 	c := Case{}
+	groupPair, anyGroupPair := false, false
 	nh := rapid.IntRange(1, 3).Draw(t, "nh")
 	for h := 0; h < nh; h++ {
 		hs := HookSpec{Name: fmt.Sprintf("h%d", h)}
@@ -130,6 +131,20 @@ func Gen(t *rapid.T) Case {
 			kb.Queue = rapid.SampledFrom([]string{"", "", "q1"}).Draw(t, "queue")
 			hs.Kube = append(hs.Kube, kb)
 		}
+		if len(hs.Kube) >= 2 && rapid.IntRange(0, 3).Draw(t, "grouppair") == 0 {
+			hs.Kube[0].OnlyNs, hs.Kube[1].OnlyNs = "default", ""
+			hs.Kube[0].Queue, hs.Kube[1].Queue = "", ""
+			groupPair = true
+			if rapid.Bool().Draw(t, "gsyncfail") {
+				hs.SyncFails = 1
+			}
+			for i := 0; i < 2; i++ {
+				hs.Kube[i].Group = "g1"
+				hs.Kube[i].KeepFull, hs.Kube[i].AllEv, hs.Kube[i].OnSync = true, true, true
+				hs.Kube[i].Events = []string{"Added", "Modified", "Deleted"}
+				hs.Kube[i].Jq = ""
+			}
+		}
 		for i := range hs.Kube {
 			for j := range hs.Kube {
 				if rapid.IntRange(0, 3).Draw(t, "inc") == 0 {
@@ -138,11 +153,18 @@ func Gen(t *rapid.T) Case {
 			}
 		}
 		ns := rapid.IntRange(0, 2).Draw(t, "ns")
+		groupPairHook := groupPair
+		groupPair = false
+		anyGroupPair = anyGroupPair || groupPairHook
 		for s := 0; s < ns; s++ {
 			sb := SB{Name: fmt.Sprintf("s%d", s), Crontab: rapid.SampledFrom(Crontabs).Draw(t, "crontab"), Queue: rapid.SampledFrom([]string{"", "q1", "q2"}).Draw(t, "squeue"), Group: rapid.SampledFrom([]string{"", "g1"}).Draw(t, "sgroup")}
 			for _, k := range hs.Kube {
 				if rapid.IntRange(0, 2).Draw(t, "sinc") == 0 {
 					sb.Includes = append(sb.Includes, k.Name)
+				}
+				if groupPairHook {
+					// only the kubernetes bindings trigger Group executions of this hook
+					sb.Group = ""
 				}
 			}
 			hs.Sched = append(hs.Sched, sb)
@@ -195,6 +217,10 @@ func Gen(t *rapid.T) Case {
 	}
 	for i, n := 0, rapid.IntRange(1, 10).Draw(t, "nsteps"); i < n; i++ {
 		c.Steps = append(c.Steps, genStep())
+	}
+	if anyGroupPair && rapid.Bool().Draw(t, "lastns2") {
+		// the last change concerns an object that only the second binding of the pair selects
+		c.Steps = append(c.Steps, Step{K: "modify", Ns: "ns2", Name: rapid.SampledFrom(Names).Draw(t, "lname"), State: rapid.IntRange(0, NStates-1).Draw(t, "lstate")})
 	}
 	if rapid.IntRange(0, 3).Draw(t, "restart") == 0 {
 		c.Restart = true
@@ -280,7 +306,11 @@ type Trace struct {
 	StartupExecs int
 	HeldSyncs    int
 	// RestartIndex: number of executions before the restart (valid when Restarted)
-	Restarted        bool
+	// LastStepChange: time (unix ns) of the last change applied to an object during the Steps phase
+	LastStepChange map[string]int64
+	// FinalTicksAt: time at which the harness injected its final ticks (0 if none yet)
+	FinalTicksAt int64
+	Restarted    bool
 	RestartIndex     int
 	ClusterAtRestart map[string]int
 	Problems     []string
@@ -288,7 +318,8 @@ type Trace struct {
 
 // Run executes the scenario.
 func Run(c Case) (*Trace, error) {
-	tr := &Trace{Case: c, Cluster: map[string]int{}, History: map[string][]int{}}
+	tr := &Trace{Case: c, Cluster: map[string]int{}, History: map[string][]int{}, LastStepChange: map[string]int64{}}
+	stepsPhase := false
 	fc := kit.NewCluster(Namespaces...)
 	for _, o := range c.Initial {
 		k := o.Ns + "/" + o.Name
@@ -314,6 +345,8 @@ func Run(c Case) (*Trace, error) {
 		}
 		if h.SyncFails > 0 {
 			rules = append(rules, vh.Rule{Match: `"type": "Synchronization"`, Times: h.SyncFails, Do: vh.Behaviour{Exit: 1}})
+			// the Synchronization of grouped bindings arrives as a Group context: its first execution fails too
+			rules = append(rules, vh.Rule{Match: `"type": "Group"`, Times: h.SyncFails, Do: vh.Behaviour{Exit: 1}})
 		}
 		for j := 0; j < h.HoldSyncs; j++ {
 			gate := fmt.Sprintf("gs-%s-%d", h.Name, j)
@@ -346,6 +379,9 @@ func Run(c Case) (*Trace, error) {
 			}
 			tr.Cluster[k] = st.State
 			tr.History[k] = append(tr.History[k], st.State)
+			if stepsPhase {
+				tr.LastStepChange[k] = time.Now().UnixNano()
+			}
 		case "delete":
 			if !exists {
 				return nil
@@ -355,6 +391,9 @@ func Run(c Case) (*Trace, error) {
 			}
 			delete(tr.Cluster, k)
 			tr.History[k] = append(tr.History[k], -1)
+			if stepsPhase {
+				tr.LastStepChange[k] = time.Now().UnixNano()
+			}
 		case "tick":
 			env.Tick(st.Cron)
 		case "settle":
@@ -406,6 +445,11 @@ func Run(c Case) (*Trace, error) {
 		if parkedGate != "" {
 			nextEarly()
 			nextEarly()
+			// every crontab fires while a Synchronization is still running: hooks whose schedules are not
+			// enabled yet must not get tasks from these ticks
+			for _, cr := range Crontabs {
+				env.Tick(cr)
+			}
 			time.Sleep(15 * time.Millisecond)
 			_ = env.Tree.OpenGate(parkedGate)
 			opened[parkedGate] = true
@@ -440,6 +484,7 @@ func Run(c Case) (*Trace, error) {
 			tr.StartupExecs++
 		}
 	}
+	stepsPhase = true
 	for _, st := range c.Steps {
 		if err := apply(st); err != nil {
 			return nil, fmt.Errorf("harness: %v", err)
@@ -448,7 +493,9 @@ func Run(c Case) (*Trace, error) {
 	if !env.WaitIdle(40*time.Millisecond, 30*time.Second) {
 		tr.Problems = append(tr.Problems, "operator did not become idle within 30s at the end")
 	}
+	stepsPhase = false
 	// final probe: every schedule crontab once more, so that fresh snapshots are visible at quiescence
+	tr.FinalTicksAt = time.Now().UnixNano()
 	for _, cr := range Crontabs {
 		env.Tick(cr)
 	}
